@@ -26,6 +26,7 @@ def main():
         failures, counts, instrs = selftest.run(chk.seed or 1)
         chk.add('translator-validation/executor-agrees-with-references-on-concrete-inputs', [], not failures,
                 meta={'comparisons': counts, 'ssa_instructions': instrs, 'mismatches': failures[:5]})
+        chk.extra['translator_validation_comparisons'] = sum(counts.values()) if isinstance(counts, dict) else int(counts)
         chk.notes.append('translator validation: %s comparisons, %d SSA instructions executed concretely' % (counts, instrs))
     chk.discharge()
     chk.finish()
